@@ -22,8 +22,9 @@ type cliOp struct {
 }
 
 type fileState struct {
-	bad bool
-	ck  bool // checkpoint file
+	bad   bool
+	ck    bool // checkpoint file
+	empty bool // comments only: nothing to execute, and still a migration file with a version
 }
 
 type world struct {
@@ -62,6 +63,9 @@ func (w *world) write(wk *clih.Work) error {
 	for v, f := range w.files {
 		// every file can create the journal table: any file may be the first one executed.
 		files[v+"_f.sql"] = fileBody(v, f.bad, true, f.ck)
+		if f.empty {
+			files[v+"_f.sql"] = "-- nothing to do in this version\n"
+		}
 	}
 	return wk.WriteDir("migrations", files)
 }
@@ -162,8 +166,8 @@ func runHistory(ops []cliOp) (problems []string, canon string, applicable bool) 
 		}
 		last := step == len(ops)-1
 		switch op.Kind {
-		case "add", "add_bad", "add_ck":
-			w.files[strconv.Itoa(max+2)] = &fileState{bad: op.Kind == "add_bad", ck: op.Kind == "add_ck"}
+		case "add", "add_bad", "add_ck", "add_empty":
+			w.files[strconv.Itoa(max+2)] = &fileState{bad: op.Kind == "add_bad", ck: op.Kind == "add_ck", empty: op.Kind == "add_empty"}
 			if max+2 > 8 {
 				return nil, "", false
 			}
@@ -312,6 +316,9 @@ func runHistory(ops []cliOp) (problems []string, canon string, applicable bool) 
 				}
 				for _, v := range files {
 					vi, _ := strconv.Atoi(v)
+					if w.files[v].empty {
+						continue
+					}
 					partial := false
 					for _, r := range cfg.Revs {
 						if r.V == v && r.Partial {
@@ -338,6 +345,23 @@ func runHistory(ops []cliOp) (problems []string, canon string, applicable bool) 
 			}
 			if wantFail != (res.Exit != 0) {
 				bad("`migrate apply` exit=%d, expected failure=%v for decision %+v: %s", res.Exit, wantFail, want, res)
+			}
+			if want.Class == "ok" && !wantFail && res.Exit == 0 {
+				// every file of the decision that this run covers has its revision afterwards.
+				files := want.Pending
+				if n > 0 && n < len(files) {
+					files = files[:n]
+				}
+				revs, _ := readRevs(wk)
+				for _, v := range files {
+					found := false
+					for _, rr := range revs {
+						found = found || (rr.V == v && rr.Applied == rr.Total)
+					}
+					if !found {
+						bad("`migrate apply` succeeded over %v but version %s has no complete revision afterwards (revisions %v)", files, v, revs)
+					}
+				}
 			}
 		}
 		// invariant of every reached state: status agrees with the documented decision (linear order).
@@ -415,6 +439,9 @@ func (w *world) versionsWithKind() []string {
 		if w.files[v].ck {
 			k += "c"
 		}
+		if w.files[v].empty {
+			k += "e"
+		}
 		out = append(out, k)
 	}
 	return out
@@ -439,7 +466,7 @@ func status(wk *clih.Work, dirURL, dbURL string) statusOut {
 }
 
 func cliAlphabet() []cliOp {
-	return []cliOp{{Kind: "start_two_applied"}, {Kind: "add"}, {Kind: "add_bad"}, {Kind: "add_ck"}, {Kind: "add_ooo"}, {Kind: "add_ooo_bad"}, {Kind: "apply"}, {Kind: "apply1"}, {Kind: "apply_nonlinear"}, {Kind: "apply_skip"}, {Kind: "apply_nonlinear_cfg"}, {Kind: "apply_skip_cfg"},
+	return []cliOp{{Kind: "start_two_applied"}, {Kind: "add"}, {Kind: "add_bad"}, {Kind: "add_ck"}, {Kind: "add_empty"}, {Kind: "add_ooo"}, {Kind: "add_ooo_bad"}, {Kind: "apply"}, {Kind: "apply1"}, {Kind: "apply_nonlinear"}, {Kind: "apply_skip"}, {Kind: "apply_nonlinear_cfg"}, {Kind: "apply_skip_cfg"},
 		{Kind: "set", V: "1"}, {Kind: "set", V: "2"}, {Kind: "set", V: "3"}, {Kind: "set", V: "4"}, {Kind: "fix"}, {Kind: "remove_newest"}}
 }
 
